@@ -3,6 +3,7 @@ package rules
 import (
 	"fmt"
 	"go/types"
+	"sort"
 
 	"golang.org/x/tools/go/ssa"
 
@@ -17,11 +18,13 @@ func runC02(r *engine.Run) {
 	r.Rule("AGREE-hash", "the GetHashBytes of LeafNode, FullNode and ExtensionNode share one skeleton: binary.Write(buf, LittleEndian, receiver.GetOrigin()), then the type's own private encode(buf), then RawHash(buf.Bytes()); each type's Encode writes the node prefix and then calls the same encode function object: hash input = origin || exactly the persisted fields")
 	r.Rule("ORDER-stamp", "in insertNode SetOrigin(trie version) precedes GetHashBytes() of the same node, whose result is the key passed to PutNode for that node, with no mutator call on the node in between")
 	r.Rule("DEP-canon", "every arm that clears a child slot or the value of a branch node and re-inserts it reads the branch's child count and value presence (GetNumChildren/HasValue): an arm that never looks at the child count after removing the value cannot collapse a one-child branch, so the shape (and the root) depends on history")
+	r.Rule("AGREE-split", "a leaf's (Prefix, Path) pair splits one key: wherever a leaf is created or re-homed, Prefix = concat(B, S[:k]) goes with Path = S[k:] of the same slice S and the same split point k, with B the operation's prefix argument (or the existing leaf's own Prefix with S its own Path); a leaf that replaces the current node gets exactly the operation's prefix. The prefix is part of the leaf's hash, so a wrong prefix makes the root depend on history")
 	r.Rule("DOM-ext-nonempty", "see C01: an extension node with an empty path is never constructed (also a canonical-form condition)")
 	r.NotDec = append(r.NotDec, "equality with an independent implementation for every content", "full history independence (canonical restructuring is value-level)", "collision resistance of the hash")
 	agreeHash(r, "AGREE-hash")
 	orderStamp(r, "ORDER-stamp")
 	depCanon(r)
+	agreeSplit(r)
 	domExtNonEmpty(r, "DOM-ext-nonempty")
 }
 
@@ -290,3 +293,150 @@ func depCanon(r *engine.Run) {
 }
 
 var _ = types.Typ
+
+// ---- AGREE-split ---------------------------------------------------------------
+
+type prefixForm struct {
+	base  ssa.Value // B
+	s     ssa.Value // S (nil when no second part)
+	k     ssa.Value // split point (nil = whole S)
+	plain bool      // P is B alone (or concat(B))
+	ok    bool
+}
+
+func parsePrefix(v ssa.Value) prefixForm {
+	v = stripCT(v)
+	if c, ok := v.(*ssa.Call); ok && staticCalleeIs(c, pkgUtil, "", "concat") {
+		b := stripCT(c.Call.Args[0])
+		rest := c.Call.Args[1]
+		if nilConst(rest) {
+			return prefixForm{base: b, plain: true, ok: true}
+		}
+		rest = stripCT(rest)
+		if sl, ok := rest.(*ssa.Slice); ok && sl.Low == nil {
+			return prefixForm{base: b, s: stripCT(sl.X), k: sl.High, ok: true}
+		}
+		return prefixForm{base: b, s: rest, k: nil, ok: true}
+	}
+	if cv, ok := v.(*ssa.Convert); ok {
+		if c := constVal(cv.X); c != nil && c.ExactString() == `""` {
+			return prefixForm{base: v, plain: true, ok: true} // Path("")
+		}
+	}
+	if c, ok := v.(*ssa.Const); ok && c.Value == nil {
+		return prefixForm{base: v, plain: true, ok: true}
+	}
+	return prefixForm{base: v, plain: true, ok: true}
+}
+
+func agreeSplit(r *engine.Run) {
+	const rule = "AGREE-split"
+	n := 0
+	for _, f := range mptFuncs(r) {
+		o := ord{}
+		var prefixParam ssa.Value
+		for _, p := range f.Params {
+			if p.Name() == "prefix" {
+				prefixParam = p
+			}
+		}
+		baseOK := func(b ssa.Value) (bool, ssa.Value) {
+			if prefixParam != nil && b == prefixParam {
+				return true, nil
+			}
+			if ld, ok := b.(*ssa.UnOp); ok {
+				if fa, ok := ld.X.(*ssa.FieldAddr); ok && isNamed(fa.X.Type(), pkgUtil, "LeafNode") && engine.FieldOf(fa).Name() == "Prefix" {
+					return true, fa.X // the existing leaf
+				}
+			}
+			if cv, ok := b.(*ssa.Convert); ok {
+				if c := constVal(cv.X); c != nil && c.ExactString() == `""` {
+					return true, nil
+				}
+			}
+			if nilConst(b) {
+				return true, nil
+			}
+			return false, nil
+		}
+		check := func(in ssa.Instruction, what string, P, Q ssa.Value) {
+			n++
+			construct := o.next(fn(f) + "|" + what)
+			pf := parsePrefix(P)
+			okB, leaf := baseOK(pf.base)
+			if !okB {
+				r.Fail(rule, construct, r.P.Pos(in.Pos()), "the leaf's prefix is not built from the operation's prefix argument (or the leaf's own prefix)")
+				return
+			}
+			q := stripCT(Q)
+			var qs, qk ssa.Value
+			if sl, ok := q.(*ssa.Slice); ok && sl.High == nil {
+				qs, qk = stripCT(sl.X), sl.Low
+			} else {
+				qs = q
+			}
+			if pf.plain {
+				// Path must be a whole slice (or nil), not a proper suffix
+				good := qk == nil || isZero(qk)
+				r.Check(good, rule, construct, r.P.Pos(in.Pos()), "prefix is the position's prefix, path is a whole key remainder", "the leaf keeps the position's prefix but its path drops leading elements: prefix and path no longer add up to the key")
+				return
+			}
+			sameS := engine.ValKey(pf.s) == engine.ValKey(qs)
+			sameK := pf.k != nil && qk != nil && engine.ValKey(pf.k) == engine.ValKey(qk)
+			if leaf != nil {
+				// own prefix goes with own path
+				if ld, ok := pf.s.(*ssa.UnOp); ok {
+					if fa, ok := ld.X.(*ssa.FieldAddr); !ok || fa.X != leaf {
+						sameS = false
+					}
+				}
+			}
+			r.Check(sameS && sameK, rule, construct, r.P.Pos(in.Pos()), "Prefix = B ++ S[:k] with Path = S[k:] (same S, same k)",
+				fmt.Sprintf("the leaf's prefix and path are cut from different slices or at different points (same slice=%v, same split point=%v): they no longer add up to the key, and since the prefix is hashed the root depends on how the leaf came to be", sameS, sameK))
+		}
+		// pending direct stores per fresh leaf object: Prefix and Path
+		type pair struct{ prefix, path *ssa.Store }
+		stores := map[ssa.Value]*pair{}
+		engine.Instrs(f, func(in ssa.Instruction) {
+			switch x := in.(type) {
+			case *ssa.Call:
+				if staticCalleeIs(x, pkgUtil, "MerklePatriciaTrie", "insertLeaf") && f.Name() != "insertLeaf" {
+					check(in, "insertLeaf", x.Call.Args[3], x.Call.Args[4])
+				}
+			case *ssa.Store:
+				fa, ok := x.Addr.(*ssa.FieldAddr)
+				if !ok || !isNamed(fa.X.Type(), pkgUtil, "LeafNode") {
+					return
+				}
+				pr := stores[fa.X]
+				if pr == nil {
+					pr = &pair{}
+					stores[fa.X] = pr
+				}
+				switch engine.FieldOf(fa).Name() {
+				case "Prefix":
+					pr.prefix = x
+				case "Path":
+					pr.path = x
+				}
+			}
+		})
+		var prs []*pair
+		for _, pr := range stores {
+			if pr.prefix != nil {
+				prs = append(prs, pr)
+			}
+		}
+		sort.Slice(prs, func(i, j int) bool { return prs[i].prefix.Pos() < prs[j].prefix.Pos() })
+		for _, pr := range prs {
+			n++
+			pf := parsePrefix(pr.prefix.Val)
+			okB, _ := baseOK(pf.base)
+			r.Check(okB && pf.plain, rule, o.next(fn(f)+"|store LeafNode.Prefix"), r.P.Pos(pr.prefix.Pos()), "a leaf that replaces the current node gets exactly the operation's prefix",
+				"a leaf that replaces the current node is given a prefix other than the operation's prefix argument: the hashed prefix no longer matches the leaf's position")
+		}
+	}
+	if n < 10 {
+		r.Anchor(rule, fmt.Errorf("unresolved anchor: only %d leaf constructions found", n))
+	}
+}
